@@ -790,6 +790,15 @@ func (w *vfWorld) runPlan(steps []vfStep) {
 			w.finishStep(p)
 		}
 		w.faultedThisStep = false
+		for _, p := range group {
+			if p.call != nil && p.call.blocked {
+				// a handler is stuck (possibly holding a product lock): nothing after this point is meaningful
+				w.logf("run aborted: handler blocked")
+				w.aborted = true
+				w.res.Steps += j - i
+				return
+			}
+		}
 		w.res.Steps += j - i
 		i = j
 		if len(w.res.Violations) > 0 && w.stopOnViolation {
